@@ -429,7 +429,23 @@ def spl_forms(out, info):
     info["spl"] = dict(linear_form=form, newton_two_sided=two)
 
 
+def mesh_limits(out, info):
+    """default maximum number of node neighbours of the triangular mesh type and whether the
+    constructor rejects meshes that exceed it (the fixed-width tables built on the mesh rely on it)"""
+    s = src("grid/trimesh.hpp")
+    m = need(re.search(r"template\s*<class S,\s*unsigned int N\s*=\s*(\d+)>\s*class trimesh_xt", s), "trimesh default N")
+    nmax = int(m.group(1))
+    b = func_body(s, r"void trimesh_xt<S, N>::set_neighbors\(.*?\)\s*\{", "set_neighbors")
+    chk = bool(re.search(r"for\s*\(const auto& (\w+) : m_neighbors_indices\)\s*\{\s*if\s*\(\1\.size\(\) > static_cast<size_type>\(N\)\)\s*\{\s*throw std::invalid_argument\(", b))
+    out.append("/-- `trimesh_xt<S, N = …>`: maximum number of node neighbours of the default mesh type -/")
+    out.append("def meshNmax : Nat := %d" % nmax)
+    out.append("/-- does the mesh constructor throw `invalid_argument` when a node has more than `N` neighbours? -/")
+    out.append("def meshChecksDegree : Bool := %s" % ("true" if chk else "false"))
+    info["mesh"] = dict(nmax=nmax, checks_degree=chk)
+
+
 SECTIONS = [  # (name, function, properties whose tie depends on it)
+    ("mesh_limits", mesh_limits, ["C08", "C18"]),
     ("raster_tables", raster_tables, ["C07", "C08"]),
     ("iterator_order", iterator_order, ["C08", "C17"]),
     ("op_flags", op_flags, ["C20", "C16"]),
